@@ -638,6 +638,28 @@ func (g *JSGen) Stmt(depth int) string {
 		g.objs = append(g.objs, o)
 		return sb.String()
 	case k < 18 && g.F.ES2015: // destructuring
+		if r.Chance(45) {
+			// bindings that are never read again (the final-state dump only covers
+			// v*/d* names): a bundler/IIFE tree shaker may drop the declaration,
+			// which is only sound when no default value or getter runs
+			g.count("destructuring-unused")
+			u := g.fresh("u")
+			dflt := g.probeCall(r.Pick([]string{g.number(), g.str()}))
+			if r.Chance(20) {
+				dflt = "(() => { throw new RangeError(\"boom\") })()"
+			}
+			src := r.Pick([]string{"[undefined]", "[void 0]", "[,]", "[...[]]", "[null]", "[1]", "[]", "[" + g.Expr(1, lvAssign) + "]", "[, 2]", "[undefined, 3]"})
+			switch r.Intn(4) {
+			case 0:
+				return "var [" + u + " = " + dflt + "] = " + src + ";"
+			case 1:
+				return "var [, " + u + " = " + dflt + "] = " + src + ";"
+			case 2:
+				return "var {a: " + u + " = " + dflt + "} = " + r.Pick([]string{"{a: undefined}", "{a: void 0}", "{}", "{a: null}", "{a: 1}", "{get a() { return " + g.probeCall("undefined") + " }}"}) + ";"
+			default:
+				return "var [{b: " + u + " = " + dflt + "} = {}] = " + src + ";"
+			}
+		}
 		g.count("destructuring")
 		a, b := g.fresh("d"), g.fresh("d")
 		g.vars = append(g.vars, a, b)
